@@ -81,7 +81,7 @@ LONG_EVENTS = ["edit_long_tail", "edit_body_a", "add_note_a", "R", "Rp", "D"]
 # on a machine whose local calendar day is not the UTC calendar day (00:30 at UTC+2, 19:30 at UTC-8)
 ZONE_EVENTS = ["edit_body_a", "kind_a", "add_note_a", "R", "Rp", "D"]
 
-EVENTS = ["edit_body_a", "kind_a", "add_note_a", "del_note_a", "move_note", "add_page_c",
+EVENTS = ["edit_body_a", "kind_a", "add_note_a", "del_note_a", "move_note", "add_page_c", "del_page_c",
           "del_page_b", "rename_b_d", "restore_b", "title_tags_a", "header_b", "drop_last_tag", "del_note_t", "break_z", "fix_z",
           "R", "Rp", "Rq", "D"]
 
@@ -153,6 +153,13 @@ def apply_edit(zd: Path, ev: str, guards: dict) -> bool:
         if c.exists():
             return False
         c.write_text("# C page #shared\n\n- 240301#C1 note in c [[a]]\n")
+        return True
+    if ev == "del_page_c":
+        c = zd / "c.zo"
+        if not c.exists() or guards.get("c_deleted"):
+            return False
+        guards["c_deleted"] = 1
+        c.unlink()
         return True
     if ev == "del_page_b":
         b = _bfile(zd)
@@ -483,9 +490,9 @@ def run(ctx: F.Ctx):
             "pending; same after an earlier stamped edit; same after a page was deleted and the "
             "index followed; same after a new page was added, the last page broken and a plain "
             "reindex refused; same after one run that wrote a ZID back, dropped a vanished page and took in a new page), "
-            "plus the indexed directory one day later on a machine at UTC+2 at 00:30 and at UTC-8 at 19:30 (local calendar day != UTC calendar day; events: body edit, kind change, new note, R, Rp, D; depth one less), plus scripted sessions of ONE long-lived `zorg edit` process (7 scenarios x midnight passing in no / each session: the editor is closed with the keep-alive file in place, zorg reindexes in the same process and reopens it), plus a small directory with a 140-note page of 12 KiB whose LAST note is edited (events: that edit, a body edit, a new note, R, Rp, D), over 19 events: edit a body, change a "
+            "plus the indexed directory one day later on a machine at UTC+2 at 00:30 and at UTC-8 at 19:30 (local calendar day != UTC calendar day; events: body edit, kind change, new note, R, Rp, D; depth one less), plus scripted sessions of ONE long-lived `zorg edit` process (7 scenarios x midnight passing in no / each session: the editor is closed with the keep-alive file in place, zorg reindexes in the same process and reopens it), plus a small directory with a 140-note page of 12 KiB whose LAST note is edited (events: that edit, a body edit, a new note, R, Rp, D), over 20 events: edit a body, change a "
             "todo's kind, add a ZID-less note, delete a note, move a note between pages whose header "
-            "blocks give one property different values, add a page, "
+            "blocks give one property different values, add a page, delete that page again, "
             "delete a page, rename a page, bring the vanished page back byte-identical, edit title-line tags, edit a section header, drop the "
             "last holder of a tag, delete a note of a property-less page, break / repair the last page "
             "(a plain reindex is refused while it is broken), plain reindex, reindex of one explicit path (also spelled <dir>/sub/../a.zo), advance the day. "
